@@ -13,9 +13,14 @@ Streams
            re-assigned stress) for stress in {1, 1/2, 2, 0.8, 3/4, 5/4} in several argument forms x reference
            models of different sizes, vs Lean runF (getReference / getTrial / deltaObj); delta_zero / _sign /
            _monotone judged against the value get_reference RETURNS; reference_size attribute == that value
+  szhist   the size of a TRIAL on a USED ForgivingFactorBits object: get_reference, then get_trial on filter-tuned
+           trials of the real hyper-model (partial limits: unquantized layers downstream of a scaled layer), on
+           same-named hand-built models, partially quantized copies, the reference itself; rows / totals judged
+           against elements x bits of the trial's own tensors and against a fresh twin; vs Lean runM
   size     real compute_model_size vs Lean computeModelSize
 Clause oracle (on the REAL outputs only): within_limit / from_config / excluded_unquantized /
-group_shared / architecture / adjust_documented / delta_zero / delta_sign / delta_monotone / reference_tie.
+group_shared / architecture / adjust_documented / delta_zero / delta_sign / delta_monotone / reference_tie /
+size_bits / size_history.
 `layer_indexes` is generated in every legal form (None, empty list / tuple / range / array / set, [0], singletons,
 tuples, ranges, numpy arrays and integers, duplicates, re-assigned on a used hyper-model, through AutoQKeras).
 The limits the oracle judges with are derived from the USER's dictionary by `doc_limit` (the documented
@@ -808,7 +813,9 @@ def stream_qm(run, ai, rng, tier, default_cfg):
   budget_fast = {"quick": 64, "thorough": 600}.get(tier, 64)
   # random scripts of a space too large to enumerate (on top of the every-option sweep); quick: 48 (was 64,
   # trimmed in the C20-7/-8 strengthening round to pay for the layer_indexes forms and the forgiving API stream)
-  budget_sampled = {"quick": 48, "thorough": 600}.get(tier, 48)
+  # V20 round: 48 -> 36 to pay for the size-history stream (szhist); exhaustive spaces and the every-option sweep
+  # are untouched
+  budget_sampled = {"quick": 36, "thorough": 600}.get(tier, 36)
   lines, impls, metas = [], [], []
   walls_qm = []
   try:
@@ -1470,6 +1477,349 @@ def stream_ff_api(run, ai, fb, models, rng, tier):
                                "driver+compare": round(_time.time() - _t2, 1)}
 
 
+W_CLASSES = ("Dense", "Conv1D", "Conv2D", "DepthwiseConv2D", "QDense", "QConv1D", "QConv2D", "QDepthwiseConv2D")
+
+
+def oracle_row(rec, c):
+  """(parameter bits, activation bits) the property prescribes for ONE layer, from the tensors of the layer
+  itself (`sz_layer` record): every weight tensor elements x bits of the quantizer applied to it (reference width
+  where none is), the output tensor elements x bits of the activation quantizer (reference width where none is
+  applied, output width for softmax / a sigmoid layer, nothing for linear), the input tensor at the input width.
+  None = class outside the clause (BatchNormalization, Flatten, recurrent, ...)."""
+  cls, ref, out = rec["cls"], c["ref_bits"], rec["out"]
+  if cls == "InputLayer":
+    return 0, c["input_bits"] * out
+  if cls in W_CLASSES:
+    is_q = cls.startswith("Q")
+    p = sum(n * (b if (is_q and b is not None) else ref) for n, b in rec["weights"])
+    if rec["act_none"] or rec["act_name"] == "linear":
+      a = 0
+    elif not is_q:
+      a = ref * out
+    elif rec["act_name"] == "softmax":
+      a = c["output_bits"] * out
+    elif rec["act_is_str"]:
+      return None
+    else:
+      a = (rec["act_bits"] if rec["act_bits"] is not None else ref) * out
+    return p, a
+  if cls in ("Activation", "QActivation"):
+    if rec["act_name"] == "linear":
+      return 0, 0
+    if rec["act_name"] in ("softmax", "sigmoid"):
+      return 0, c["output_bits"] * out
+    return 0, (rec["act_bits"] if rec["act_bits"] is not None else ref) * out
+  return None
+
+
+def stream_size_history(run, ai, fb, models, rng, tier):
+  """The size of a trial counts the tensors of the TRIAL model — on a USED ForgivingFactorBits object.
+
+  ONE object per (reference model, size configuration, route): `get_reference(reference)` (directly or through
+  the AutoQKHyperModel constructor, as the search does), then `get_trial` on a series of models whose layers carry
+  the NAMES of the reference's layers but are not the reference's layers:
+    * trials of the real hyper-model with filter tuning (`tune_filters` layer / block) and PARTIAL limits
+      (pattern on one layer, class limit x layer_indexes, conv only), so that unquantized Dense / DepthwiseConv2D /
+      BatchNormalization / Activation layers sit downstream of a widened / narrowed layer — every filter factor;
+    * hand-built models with IDENTICAL layer names and other widths / inputs / activations / BN options;
+    * partially `model_quantize`d copies; the reference itself;
+  in a seeded order, with a trial measured BEFORE the reference on every other object and repeated measurements.
+  Clauses, exact: size_bits (site trial_history: every row of `trial_size_dict`, the returned total, total_p/a_bits
+  against `oracle_row` on the trial's own tensors), size_history (rows / totals == a FRESH twin object measuring the
+  same model, all classes and size configurations; `get_reference_stats()` and `reference_size` after the trials
+  == those of the reference), delta_sign / delta_zero (bonus judged against the oracle's trial size).  The same
+  history goes to the Lean `runM` (getReferenceM / getTrialM)."""
+  import fractions
+  from qkeras import get_quantizer
+  from qkeras.utils import model_quantize
+  from tensorflow.keras import layers as L
+  from tensorflow.keras.models import Model
+  import time as _time
+  _t0 = _time.time()
+
+  def chain(n_in=8, units=(8, 6, 3), acts=("relu", "relu"), act="tanh", center=True):
+    i = x = L.Input((n_in,), name="input")
+    x = L.Dense(units[0], activation=acts[0], name="d0")(x)
+    x = L.Dense(units[1], activation=acts[1], name="d1")(x)
+    x = L.BatchNormalization(name="bn", center=center)(x)
+    x = L.Activation(act, name="act")(x)
+    x = L.Dense(units[2], name="out")(x)
+    x = L.Activation("softmax", name="sm")(x)
+    return Model(i, x)
+
+  refs = {"chain": chain(), "mlp": models["mlp"], "conv": models["conv"]}
+  cfg = small_cfg()
+  # (reference, limit, kwargs): the selected layers are scaled, layers downstream of them stay unquantized
+  tuned = [
+      ("chain", {"^d0$": [1, 4, 1]}, {"tune_filters": "layer", "tune_filters_exceptions": "^out$"}),
+      ("chain", {"Dense": [2, 4, 3]}, {"tune_filters": "layer", "layer_indexes": [1]}),
+      ("chain", {"^d1$": [2, 4, 1]}, {"tune_filters": "block", "tune_filters_exceptions": "^out$"}),
+      ("mlp", {"^d0$": [1, 4, 1]}, {"tune_filters": "layer"}),
+      ("mlp", {"Dense": [1, 4, 1], "Activation": [1]}, {"tune_filters": "block", "layer_indexes": (1, 3)}),
+      ("conv", {"^conv_a$": [2, 4, 3]}, {"tune_filters": "layer"}),
+      ("conv", {"Conv2D": [2, 4, 3]}, {"tune_filters": "block", "_only": (0, 4)}),
+  ]
+  sizecfgs = [
+      ("all_8", dict(input_bits=8, output_bits=8, ref_bits=8, config={"default": ["parameters", "activations"]})),
+      ("all_7_9_6", dict(input_bits=7, output_bits=9, ref_bits=6, config={"default": ["parameters", "activations"]})),
+      ("per_class", dict(input_bits=8, output_bits=16, ref_bits=8,
+                         config={"Dense": ["parameters"], "QDense": ["parameters"], "Conv2D": ["parameters"],
+                                 "QConv2D": ["parameters"], "DepthwiseConv2D": ["parameters", "activations"],
+                                 "BatchNormalization": ["parameters"], "Activation": ["activations"],
+                                 "QActivation": ["activations"]})),
+  ]
+  # --- trial models ----------------------------------------------------------------------------------------------
+  trials = {k: [] for k in refs}          # reference key -> [(source, description, model)]
+  hm_targets = []
+  for rk, lim, kw in tuned:
+    kw = dict(kw)
+    only = kw.pop("_only", None)
+    t0 = fb.ForgivingFactorBits(8, 8, 2, **copy.deepcopy(sizecfgs[0][1]))
+    hm = make_hm(ai, refs[rk], lim, cfg, target=t0, **kw)
+    probe = StubHP()
+    hm.groups = {}
+    try:
+      with quiet():
+        hm.quantize_model(probe)
+    except Exception as e:  # pylint: disable=broad-except
+      # below the modelled boundary: tf_keras rebuilds a QUANTIZED layer downstream of a scaled one from the
+      # stale `build_config` of the reference (two adjacent scaled layers); such configurations are not used here
+      run.count("szhist_probe_raised_" + type(e).__name__)
+    dims = list(probe.dims)
+    if int(np.prod(dims)) <= 6:
+      scripts = list(itertools.product(*[range(d) for d in dims]))
+    else:
+      # every filter factor once (the other dimensions seeded), plus the all-last-options script
+      scripts = []
+      for j, d in enumerate(dims):
+        if d == len(FILTER_RANGE):
+          for v in range(d):
+            sc = [int(rng.integers(0, dd)) for dd in dims]
+            sc[j] = v
+            scripts.append(tuple(sc))
+      scripts.append(tuple(d - 1 for d in dims))
+    if only is not None:
+      scripts = [scripts[k_] for k_ in only if k_ < len(scripts)]
+    mine = []
+    for script in scripts:
+      hm.groups = {}
+      hp = StubHP(script)
+      try:
+        with quiet():
+          qm, _ = hm.quantize_model(hp)
+      except Exception as e:  # pylint: disable=broad-except
+        run.count("szhist_trial_build_raised_" + type(e).__name__)
+        continue
+      desc = {"limit": lim, "kwargs": kw_json(kw), "hyper_parameters": {k: (v if isinstance(v, str) else float(v))
+                                                                          for k, v in hp.values.items()}}
+      mine.append(("filter_tuning", desc, qm))
+    trials[rk] += mine
+    hm_targets.append((rk, t0, hm, mine, lim, kw))
+  hand = {
+      "chain": [("d0 halved", chain(units=(4, 6, 3))), ("d0 doubled, d1 halved", chain(units=(16, 3, 3))),
+                ("5 inputs", chain(n_in=5)), ("relu -> linear / tanh", chain(acts=("linear", "tanh"))),
+                ("act tanh -> sigmoid", chain(act="sigmoid")), ("bn center=False", chain(center=False)),
+                ("out 3 -> 7", chain(units=(8, 6, 7)))],
+  }
+  i = x = L.Input((6,), name="input")
+  x = L.Dense(7, activation="tanh", name="d0")(x)
+  x = L.Dense(3, use_bias=True, name="d1")(x)
+  x = L.Activation("sigmoid", name="act_1")(x)
+  x = L.Dense(5, name="d_out")(x)
+  x = L.Activation("softmax", name="softmax")(x)
+  hand["mlp"] = [("other widths, bias on d1, sigmoid", Model(i, x))]
+  for rk, lst in hand.items():
+    trials[rk] += [("same_names_rebuilt", {"change": d}, m) for d, m in lst]
+  with quiet():
+    trials["chain"].append(("model_quantize_partial", {"q_dict": "d1, act"}, model_quantize(
+        refs["chain"], {"d1": {"kernel_quantizer": "ternary", "bias_quantizer": "quantized_bits(4,0,1)",
+                               "activation_quantizer": "quantized_relu(3,1)"}, "act": "quantized_tanh(5)"}, 4)))
+    trials["mlp"].append(("model_quantize_partial", {"q_dict": "d_out"}, model_quantize(
+        refs["mlp"], {"d_out": {"kernel_quantizer": "binary", "bias_quantizer": "quantized_bits(8,3,1)"}}, 4)))
+  for rk in refs:
+    trials[rk].append(("reference_itself", {}, refs[rk]))
+  _t1 = _time.time()
+
+  recs_cache = {}
+
+  def recs_of(m):
+    if id(m) not in recs_cache:
+      recs_cache[id(m)] = [sz_layer(l, get_quantizer) for l in m.layers]
+    return recs_cache[id(m)]
+
+  def rows_of(d):
+    return [[k, int(v["parameters"]), int(v["activations"]), int(v["total"])] for k, v in d.items()]
+
+  def rjn(x):
+    return None if x is None else core.rj(float(x) if isinstance(x, np.ndarray) else x)
+
+  def oint(x):
+    return None if x is None else int(x)
+
+  twin_cache = {}
+
+  def twin(m, scn, sc):
+    """a FRESH object measuring the model"""
+    k = (id(m), scn)
+    if k not in twin_cache:
+      tot, p, a, d = fb.ForgivingFactorBits(8, 8, 2, **copy.deepcopy(sc)).compute_model_size(m)
+      twin_cache[k] = (int(tot), int(p), int(a), rows_of(d))
+    return twin_cache[k]
+
+  lines, impls, pend = [], [], []
+  n_obj = 0
+  for rk, ref in refs.items():
+    ref_names = {l.name: l.__class__.__name__ for l in ref.layers}
+    for scn, sc in sizecfgs:
+      for route in ("direct", "hyper_model"):
+        for stress in ((1.0,) if (scn != "all_8" or route != "direct") else (1.0, 0.5)):
+          n_obj += 1
+          t = fb.ForgivingFactorBits(8, 8, 2, stress=stress, **copy.deepcopy(sc))
+          events, steps = [], []
+          base = {"reference_model": rk, "size_config": sc, "route": route, "stress": stress,
+                  "replay": "t = ForgivingFactorBits(8, 8, 2, stress=stress, **size_config); r = t.get_reference("
+                            "reference_model) [route hyper_model: AutoQKHyperModel(reference_model, metrics, target=t, "
+                            "limit=..., tune_filters=...)]; s = t.get_trial(trial_model); t.trial_size_dict; t.delta()"}
+
+          def snap(ret):
+            st = {"ret": rjn(ret), "reference_size": rjn(getattr(t, "reference_size", None)),
+                  "trial_size": rjn(getattr(t, "trial_size", None)), "reference_stats": None, "trial_stats": None}
+            if hasattr(t, "reference_size_dict"):
+              st["reference_stats"] = {"p": oint(getattr(t, "ref_p", None)), "a": oint(getattr(t, "ref_a", None)),
+                                       "rows": rows_of(t.reference_size_dict)}
+            if hasattr(t, "trial_size_dict"):
+              st["trial_stats"] = {"p": oint(getattr(t, "total_p_bits", None)),
+                                   "a": oint(getattr(t, "total_a_bits", None)), "rows": rows_of(t.trial_size_dict)}
+            steps.append(st)
+
+          order = [int(j) for j in rng.permutation(len(trials[rk]))]
+          seq = [("trial", order[0])] if n_obj % 2 == 0 else []     # a trial measured BEFORE the reference
+          seq.append(("ref", None))
+          for pos, j in enumerate(order):
+            seq.append(("trial", j))
+            if pos % 7 == 3:
+              seq.append(("trial", j))                               # the same model measured twice in a row
+          R = None
+          for kind, j in seq:
+            if kind == "ref":
+              if route == "hyper_model":
+                r = make_hm(ai, ref, {"Dense": [4, 8, 6]}, cfg, target=t, tune_filters="layer").reference_size
+              else:
+                r = t.get_reference(ref)
+              events.append(["ref", recs_of(ref)])
+              snap(r)
+              R = core.frac(r)
+              continue
+            src, desc, tm = trials[rk][j]
+            recs = recs_of(tm)
+            trv = t.get_trial(tm)
+            events.append(["trial", recs])
+            snap(trv)
+            got = t.trial_size_dict
+            tw_tot, tw_p, tw_a, tw_rows = twin(tm, scn, sc)
+            tw = {r_[0]: r_ for r_ in tw_rows}
+            run.case(("szhist", rk, scn, route, stress, len(events)))
+            exp_tot = exp_p = exp_a = 0
+            ctx = dict(base, trial_source=src, trial=desc, call=len(events),
+                       reference_measured_before=R is not None)
+            for l, rec in zip(tm.layers, recs):
+              lc = sc["config"].get(rec["cls"], sc["config"].get("default"))
+              if not lc:
+                continue
+              o_row = oracle_row(rec, sc)
+              kind_l = ("quantized" if rec["cls"].startswith("Q") else
+                        "unquantized_same_name" if ref_names.get(l.name) == rec["cls"] else "unquantized_other")
+              row = got.get(l.name)
+              g = None if row is None else (int(row["parameters"]), int(row["activations"]))
+              e_row = o_row if o_row is not None else (tw[l.name][1], tw[l.name][2])
+              exp_p += e_row[0] * ("parameters" in lc)
+              exp_a += e_row[1] * ("activations" in lc)
+              det = dict(ctx, layer=l.name, layer_class=rec["cls"],
+                         weight_shapes=[list(w.shape) for w in l.get_weights()], output_elements=rec["out"],
+                         size_model_says={"parameters": g and g[0], "activations": g and g[1]})
+              run.count("szhist_row_" + kind_l + ("_in_clause" if o_row is not None else "_twin_only"))
+              if o_row is not None and g != tuple(o_row):
+                pend.append((len(lines), len(steps) - 1, "size_bits",
+                             {"site": "trial_history", "layer": kind_l, "trial_source": src},
+                             dict(det, elements_x_bits_of_the_trial_tensors={"parameters": o_row[0],
+                                                                             "activations": o_row[1]})))
+              if g != (tw[l.name][1], tw[l.name][2]):
+                pend.append((len(lines), len(steps) - 1, "size_history",
+                             {"site": "trial_row_vs_fresh_twin", "layer": kind_l, "trial_source": src},
+                             dict(det, fresh_twin={"parameters": tw[l.name][1], "activations": tw[l.name][2]})))
+            exp_tot = exp_p + exp_a
+            if (int(trv), int(t.total_p_bits), int(t.total_a_bits)) != (exp_tot, exp_p, exp_a):
+              pend.append((len(lines), len(steps) - 1, "size_bits",
+                           {"site": "trial_history", "layer": "whole_model", "trial_source": src},
+                           dict(ctx, returned=[int(trv), int(t.total_p_bits), int(t.total_a_bits)],
+                                sum_elements_x_bits=[exp_tot, exp_p, exp_a])))
+            if (int(trv), int(t.total_p_bits), int(t.total_a_bits)) != (tw_tot, tw_p, tw_a):
+              pend.append((len(lines), len(steps) - 1, "size_history",
+                           {"site": "trial_total_vs_fresh_twin", "trial_source": src},
+                           dict(ctx, returned=[int(trv), int(t.total_p_bits), int(t.total_a_bits)],
+                                fresh_twin=[tw_tot, tw_p, tw_a])))
+            if R is not None and exp_tot > 0 and R > 0:
+              # the bonus, judged against the size of the trial's own tensors
+              d = core.frac(float(t.delta()))
+              rel = "equal" if exp_tot == R else "below" if exp_tot < R else "above"
+              run.count("szhist_delta_" + rel)
+              if (rel == "equal" and d != 0) or (rel == "below" and not d > 0) or (rel == "above" and not d < 0):
+                pend.append((len(lines), len(steps) - 1, "delta_zero" if rel == "equal" else "delta_sign",
+                             {"site": "trial_history", "trial_source": src},
+                             dict(ctx, returned_reference=float(R), trial_elements_x_bits=exp_tot,
+                                  returned_trial=int(trv), delta=float(d))))
+          # after the trials the reference statistics are still the reference's
+          rt = twin(ref, scn, sc)
+          if rows_of(t.get_reference_stats()) != rt[3] or \
+              (oint(getattr(t, "ref_p", None)), oint(getattr(t, "ref_a", None))) != (rt[1], rt[2]) or \
+              core.frac(t.reference_size) != R or R != fractions.Fraction(rt[0]) * core.frac(stress):
+            pend.append((len(lines), len(steps) - 1, "size_history", {"site": "reference_stats_after_trials"},
+                         dict(base, get_reference_stats=rows_of(t.get_reference_stats()), reference_rows=rt[3],
+                              reference_size=float(t.reference_size), first_returned=float(R))))
+          lines.append({"op": "szhist", "input_bits": sc["input_bits"], "output_bits": sc["output_bits"],
+                        "ref_bits": sc["ref_bits"], "config": [[k, v] for k, v in sc["config"].items()],
+                        "stress": core.rj(stress), "events": events})
+          impls.append((base, steps, [e[0] for e in events]))
+  # the hyper-models' own targets (the object the search scores with): every trial it generated
+  for rk, t0, hm, mine, lim, kw in hm_targets:
+    sc = sizecfgs[0][1]
+    for src, desc, tm in mine:
+      trv = t0.get_trial(tm)
+      tw_tot, _, _, tw_rows = twin(tm, "all_8", sc)
+      run.case(("szhist_hm", rk, core.json.dumps(desc, sort_keys=True, default=str)))
+      run.count("szhist_hm_target_trial")
+      if int(trv) != tw_tot or rows_of(t0.trial_size_dict) != tw_rows:
+        bad = [(a_, b_) for a_, b_ in zip(rows_of(t0.trial_size_dict), tw_rows) if a_ != b_]
+        run.violate("size_history", {"site": "hyper_model_target", "trial_source": src},
+                    {"reference_model": rk, "trial": desc, "returned": int(trv), "fresh_twin": tw_tot,
+                     "first_differing_row [name, parameters, activations, total] (used object, fresh twin)": bad[:1],
+                     "replay": "hm = AutoQKHyperModel(reference_model, metrics, target=t, limit=limit, **kwargs); "
+                               "q, _ = hm.quantize_model(hp); t.get_trial(q); t.trial_size_dict"}, False)
+  _t2 = _time.time()
+  outs = core.run_driver("C20", lines)
+  agree = {}
+  for li_, ((base, steps, kinds), o) in enumerate(zip(impls, outs)):
+    msteps = o.get("steps", [])
+    run.compared += len(steps)
+    for si, st in enumerate(steps):
+      ok = si < len(msteps) and msteps[si] == st
+      agree[(li_, si)] = ok
+      if not ok:
+        run.disagree("szhist", dict(base, call=si + 1, event=kinds[si]), st, msteps[si] if si < len(msteps) else o)
+        break
+  seen = set()
+  for li_, si, clause, key, det in pend:
+    k = (clause, core.json.dumps(key, sort_keys=True))
+    if k in seen and tier == "quick":
+      run.count("szhist_violation_repeat")
+      continue
+    seen.add(k)
+    run.violate(clause, key, det, agree.get((li_, si), False))
+  run.extra["szhist"] = {"objects": n_obj, "trial_models": {k: len(v) for k, v in trials.items()},
+                         "wall_s": {"build_trials": round(_t1 - _t0, 1), "histories": round(_t2 - _t1, 1),
+                                    "driver+compare": round(_time.time() - _t2, 1)}}
+
+
 def run(run: core.Run, tier: str):
   core.assert_repo_import()
   import qkeras.autoqkeras.autoqkeras_internal as ai
@@ -1488,7 +1838,10 @@ def run(run: core.Run, tier: str):
       "with a shared group cache; delta on (delta_p, delta_n, rate, stress, integer sizes incl. ref, ref±1..3); "
       "forgiving-factor HISTORIES through get_reference/get_trial/delta on one object for 10 stress forms x 3 "
       "reference models x trial models whose size equals / undercuts / exceeds the STRESSED reference; "
-      "compute_model_size on reference, model_quantize'd and hand-built mixed models x 4 size configurations")
+      "compute_model_size on reference, model_quantize'd and hand-built mixed models x 4 size configurations; "
+      "size HISTORIES (szhist): get_reference then get_trial on filter-tuned trials (every filter factor, partial "
+      "limits), same-named rebuilt models, partially quantized copies, on one object per reference x size "
+      "configuration x route, a trial before the reference on every other object")
   import time
   walls = {}
   t0 = time.time()
@@ -1503,6 +1856,8 @@ def run(run: core.Run, tier: str):
   stream_delta_models(run, ai, fb, models, default_cfg)
   stream_ff_api(run, ai, fb, models, rng, tier)
   walls["delta"] = round(time.time() - t0, 1); t0 = time.time()
+  stream_size_history(run, ai, fb, models, rng, tier)
+  walls["szhist"] = round(time.time() - t0, 1); t0 = time.time()
   stream_size(run, fb, ai, models, rng, tier, default_cfg)
   walls["size"] = round(time.time() - t0, 1)
   run.extra["stream_wall_s"] = walls
